@@ -150,6 +150,10 @@ func c19CLI(e *Env) {
 		{[]string{"old_*", "users.idx_*"}, []string{"drop_table", "drop_index", "add_index"}, []string{"old_table", "idx_legacy"}},
 		{[]string{"old_table", "fresh", "items.legacy_col", "users.email"}, []string{"drop_table", "add_table", "drop_column", "add_column"}, []string{"old_table", "legacy_col"}},
 		{[]string{"*[type=table]"}, c19Kinds, []string{"users", "old_table"}},
+		// selectors that match no table at all must leave the tables alone
+		{[]string{"*[type=view]"}, nil, nil},
+		{[]string{"*[type=trigger]", "*.*[type=fk]"}, nil, nil},
+		{[]string{"*[type=view|trigger]"}, nil, nil},
 	}
 	for i, c := range cases {
 		db := fresh(fmt.Sprintf("ex%d.sqlite", i))
